@@ -49,7 +49,9 @@ def install(eng):
         def rely(self, e, st, n):
             cur = e.current
             me = st.env.get("self")
-            tid = st.env.get("tid")
+            if me is not None and isinstance(me.ty, T.ObjT) and me.ty.cls == "Server":
+                me = V(Sch, eng.const_fn("Server", "scheduler", Sch)(me.z))     # the pool served by this server
+            tid = st.env.get("tid") if (st.env.get("self") is not None and st.env["self"].ty == Sch) else None
             old_ts = st.heap[("Scheduler", "task_states")]
             old_tk = st.heap[("Scheduler", "tasks")]
             old_done = st.ghost["done_tasks"]
@@ -58,6 +60,11 @@ def install(eng):
             new_done = z3.FreshConst(old_done.z.sort(), "done_tasks")
             st2 = st.set_heap(("Scheduler", "task_states"), new_ts).set_heap(("Scheduler", "tasks"), new_tk) \
                 .set_ghost("done_tasks", V(old_done.ty, new_done))
+            old_iss = st.ghost.get("issued")
+            new_iss = None
+            if old_iss is not None:
+                new_iss = z3.FreshConst(old_iss.z.sort(), "issued")
+                st2 = st2.set_ghost("issued", V(old_iss.ty, new_iss))
             if me is None:
                 return st2
             o, n_ = z3.Select(old_ts, me.z), z3.Select(new_ts, me.z)
@@ -69,6 +76,7 @@ def install(eng):
                                           z3.And(z3.Select(TKS.dom(nt), k), z3.Select(TKS.vals(nt), k) == z3.Select(TKS.vals(ot), k)))),
                 z3.ForAll([k], z3.Select(TKS.dom(nt), k) == z3.Select(STS.dom(n_), k)),
                 z3.ForAll([k], z3.Implies(z3.Select(TKS.dom(nt), k), f_tid(z3.Select(TKS.vals(nt), k)) == k)),
+                z3.ForAll([k], z3.Implies(z3.Select(STS.dom(n_), k), z3.Select(STS.vals(n_), k) != LS.const("UNKNOWN"))),
                 # other schedulers' tables are untouched; the task table of this one is unchanged (only enqueue adds)
                 z3.ForAll([x := z3.Const("o!rely", Sch.sort())], z3.Implies(x != me.z, z3.Select(new_ts, x) == z3.Select(old_ts, x))),
                 # R: ids are never removed; done is permanent; a finished task in a final state keeps it
@@ -80,6 +88,11 @@ def install(eng):
                 z3.ForAll([k], z3.Implies(z3.And(z3.Select(new_done, k), z3.Select(STS.dom(n_), k)),
                                           is_final(z3.Select(STS.vals(n_), k)))),
             ]
+            if new_iss is not None:
+                # other handlers may enqueue: ids handed out only grow, and every id in the table was handed out
+                facts += [z3.ForAll([k], z3.Implies(z3.Select(old_iss.z, k), z3.Select(new_iss, k))),
+                          z3.ForAll([k], z3.Implies(z3.Select(STS.dom(n_), k), z3.Select(new_iss, k))),
+                          z3.ForAll([k], z3.Implies(z3.Select(new_done, k), z3.Select(new_iss, k)))]
             if tid is not None and tid.ty is T.INT:
                 mine_old, mine_new = z3.Select(STS.vals(o), tid.z), z3.Select(STS.vals(n_), tid.z)
                 # my own entry: only cancel_task writes it (CANCELLED, when it was SUBMITTED/RUNNING); I am not done
@@ -96,8 +109,8 @@ def install(eng):
             """CancelledError at this await: cancel_task(tid) ran (it has already written CANCELLED) or the pool is
             shutting down (Scheduler.kill)"""
             st2 = self.rely(e, st, n)
-            tid = st2.env.get("tid")
             me = st2.env.get("self")
+            tid = st2.env.get("tid") if (me is not None and me.ty == Sch) else None
             if tid is None or me is None:
                 sink.append((st2, Exc(asyncio.CancelledError)))
                 return
@@ -194,6 +207,7 @@ def install(eng):
     OP = T.Opt(Proc)
     GLOC = {"g_held": T.BOOL, "g_proc": T.BOOL, "g_comm": T.BOOL, "g_killed": T.BOOL}
     POOLINV = ["all(self.tasks[k].tid == k for k in self.tasks)",
+               "all(self.task_states[k] != LocalStatus.UNKNOWN for k in self.task_states)",
                "forall(lambda k: (k in self.tasks) == (k in self.task_states), Tid)",
                # invariant of the pool: a finished coroutine left its task in a final state (every coroutine's
                # postcondition, C13)
@@ -246,3 +260,179 @@ def install(eng):
             "not g_held", "not g_proc", "not g_comm", "not g_killed", "proc is None"])},
         serves=["C11", "C12", "C13"])
     eng.contracts["gwf.backends.local:Scheduler.try_handle_task"].io_may_fail = True
+
+    # ================================================================== the other Scheduler methods (C13, C14)
+    import itertools
+    eng.ghost("issued", T.SetT(Tid))                  # ids handed out by this pool's itertools.count()
+    eng.ghost("cancel_requested", T.SetT(Tid))        # Task.cancel() calls
+    eng.classes["Scheduler"].consts["tid_generator"] = T.ObjT("Count")
+    eng.cls("Count")
+    _r_next = eng.rules[next]
+
+    def r_next2(e, args, kw, st, sink, n):
+        if isinstance(args[0].ty, T.ObjT) and args[0].ty.cls == "Count":
+            iss = st.ghost["issued"]
+            r, st = e.fresh(Tid, "tid", st)
+            # itertools.count(): every call returns a number it never returned before (trusted)
+            st = st.assume(z3.Not(z3.Select(iss.z, r.z)))
+            yield st.set_ghost("issued", V(iss.ty, z3.Store(iss.z, r.z, True))), r
+        else:
+            yield from _r_next(e, args, kw, st, sink, n)
+
+    eng.rules[next] = r_next2
+
+    def r_create_task(e, args, kw, st, sink, n):
+        co = args[0]
+        if not (co.ty is T.PY and isinstance(co.z, tuple) and co.z[0] == "coro"):
+            raise Unsupported("asyncio.create_task of something that is not a contracted coroutine", n)
+        _, cc, cargs, ckw = co.z
+        t, st = e.fresh(Task, "task", st)
+        # ghost: the task object knows the id of the coroutine it runs (second positional argument after self)
+        names = list(cc.params)
+        tidv = cargs[names.index("tid")] if "tid" in names and len(cargs) > names.index("tid") else None
+        if tidv is not None:
+            st = st.assume(f_tid(t.z) == tidv.z)
+        st = st.set_meta("spawned", tuple(st.meta.get("spawned", ())) + ((cc, cargs, ckw, n),))
+        yield st, t
+
+    eng.rules[asyncio.create_task] = r_create_task
+    eng.contract("iface:AioTask.cancel", self_type=Task, params={"self": Task}, trusted=True,
+                 modifies=["ghost:cancel_requested"],
+                 ensures=["forall(lambda k: (k in cancel_requested) == (k in old(cancel_requested) or k == self.tid), Tid)"],
+                 note="asyncio.Task.cancel(): CancelledError is delivered at the task's current / next suspension")
+    SINV = POOLINV + ["forall(lambda k: implies(k in self.task_states, k in issued), Tid)"]
+    OTHERS = ("forall(lambda k: implies(k != %s, (k in self.task_states) == (k in old(self.task_states)) and "
+              "implies(k in self.task_states, self.task_states[k] == old(self.task_states)[k]) and "
+              "(k in self.tasks) == (k in old(self.tasks)) and "
+              "implies(k in self.tasks, self.tasks[k] == old(self.tasks)[k])), Tid)")
+    eng.contract(
+        "gwf.backends.local:Scheduler.enqueue_task", self_type=Sch, is_async=True,
+        params={"self": Sch, "name": T.STR, "script": T.STR, "working_dir": vc.Path, "time_limit": T.Opt(T.REAL),
+                "deps": T.ListV(Tid)}, returns=Tid, requires=SINV,
+        modifies=["self.task_states", "self.tasks", "ghost:issued"],
+        ensures=SINV + [
+            # C14: the id is new for this pool; exactly one entry is added, in state SUBMITTED
+            "result not in old(self.task_states)", "result in self.task_states",
+            "self.task_states[result] == LocalStatus.SUBMITTED", "result not in done_tasks or True",
+            OTHERS % "result"],
+        entry_assume=["forall(lambda k: implies(k in done_tasks, k in issued), Tid)"],
+        serves=["C14", "C13"])
+    eng.contract(
+        "gwf.backends.local:Scheduler.cancel_task", self_type=Sch, is_async=True, params={"self": Sch, "tid": Tid},
+        requires=SINV, modifies=["self.task_states", "ghost:cancel_requested"],
+        ensures=SINV + [
+            # C13: cancelling a finished task changes nothing; a waiting / running one becomes CANCELLED
+            "implies(Final(old(self.task_states)[tid]), self.task_states[tid] == old(self.task_states)[tid] and "
+            "cancel_requested == old(cancel_requested))",
+            "implies(not Final(old(self.task_states)[tid]), self.task_states[tid] == LocalStatus.CANCELLED and tid in cancel_requested)",
+            # guarantee for the rely relation: only this entry is written, and only from SUBMITTED / RUNNING
+            "forall(lambda k: implies(k != tid, (k in self.task_states) == (k in old(self.task_states)) and "
+            "implies(k in self.task_states, self.task_states[k] == old(self.task_states)[k])), Tid)",
+            ],
+        # C14: an unknown id raises inside the handler and changes nothing
+        raises={"KeyError": {"cond": "tid not in self.task_states", "modifies": []}},
+        serves=["C13", "C14"])
+    eng.contract("gwf.backends.local:Scheduler.get_task_state", self_type=Sch, params={"self": Sch, "tid": Tid},
+                 returns=T.Opt(LS), ensures=["implies(tid in self.task_states, result is not None and "
+                                             "the(result) == self.task_states[tid])",
+                                             "implies(tid not in self.task_states, result is None)"],
+                 serves=["C14"])
+    eng.contract("gwf.backends.local:Scheduler.get_task_states", self_type=Sch, params={"self": Sch}, returns=STS,
+                 # C14: a state query returns each task's state under its own id (a copy of the table)
+                 ensures=["dict_eq(result, self.task_states)"], serves=["C14", "C08"])
+
+    # ================================================================== the server (C14)
+    import json as _json
+    Json = T.Atom("Json")
+    Srv = T.ObjT("Server")
+    Rd, Wr, AS = T.ObjT("StreamReader"), T.ObjT("StreamWriter"), T.ObjT("AioServer")
+    eng.cls("StreamReader")
+    eng.cls("StreamWriter")
+    eng.cls("AioServer")
+    eng.cls("Server", pyname="gwf.backends.local:Server", consts={"scheduler": Sch, "server": AS})
+    eng.ghost("server_closed", T.BOOL)
+    eng.ghost("sent_states", STS)           # the table sent by the last task_states response
+    eng.ghost("last_kind", Json)
+    f_jstr = z3.Function("json_str", Json.sort(), z3.StringSort())
+    f_jisstr = z3.Function("json_is_str", Json.sort(), z3.BoolSort())
+    f_pop = z3.Function("json_pop", Json.sort(), z3.StringSort(), Json.sort())          # value popped
+    f_rest = z3.Function("json_rest", Json.sort(), z3.StringSort(), Json.sort())        # message afterwards
+    f_jtruthy = z3.Function("json_truthy", Json.sort(), z3.BoolSort())
+    eng.eq_hooks[("Json", "Str")] = lambda e, a, b: z3.And(f_jisstr(a.z), f_jstr(a.z) == b.z)
+    eng.truthy_hooks["Json"] = lambda e, v: f_jtruthy(v.z)
+    eng.fn("JsonIs")(lambda e, st, j, s_: V(T.BOOL, z3.And(f_jisstr(j.z), f_jstr(j.z) == e.coerce(s_, T.STR).z)))
+    # arbitrary JSON reaching typed parameters: conversions are uninterpreted (a value of the wrong JSON type makes the
+    # task coroutine raise TypeError later, which try_handle_task turns into FAILED)
+    for tn, ty_ in (("Str", T.STR), ("Path", vc.Path), ("Int", T.INT)):
+        f = z3.Function("json_as_" + tn, Json.sort(), ty_.sort())
+        eng.coerce_hooks[("Json", ty_.name)] = (lambda f: lambda e, v: V(f.range() and ty_, f(v.z)))(f) if False else \
+            (lambda f, ty_: (lambda e, v: V(ty_, f(v.z))))(f, ty_)
+    LTid = T.ListV(Tid)
+    f_jlist = z3.Function("json_as_tids", Json.sort(), LTid.sort())
+    eng.coerce_hooks[("Json", LTid.name)] = lambda e, v: V(LTid, f_jlist(v.z))
+    OR = T.Opt(T.REAL)
+    f_jor = z3.Function("json_as_optreal", Json.sort(), OR.sort())
+    eng.coerce_hooks[("Json", OR.name)] = lambda e, v: V(OR, f_jor(v.z))
+    eng.coerce_hooks[("None", "Json")] = lambda e, v: V(Json, z3.Const("json_null", Json.sort()))
+
+    def r_loads(e, args, kw, st, sink, n):
+        sink.append((st, Exc(_json.JSONDecodeError)))          # malformed request
+        j, st = e.fresh(Json, "msg", st)
+        yield st, j
+
+    eng.rules[_json.loads] = r_loads
+
+    def m_json_pop(e, bb, args, kw, st, sink, n):
+        # message.pop(key[, default]) on an arbitrary JSON value: not an object -> AttributeError / TypeError;
+        # key missing and no default -> KeyError
+        key = e.coerce(args[0], T.STR, n).z
+        sink.append((st, Exc(AttributeError)))
+        if len(args) == 1:
+            sink.append((st, Exc(KeyError)))
+        nv = V(Json, f_rest(bb.recv.z, key))
+        st2 = e.write_back(bb.recv_node, st, nv, sink)
+        if st2.env.get("kind") is None and key.eq(z3.StringVal("__kind__")):
+            pass
+        yield st2, V(Json, f_pop(bb.recv.z, key))
+
+    eng.method_rules[("Json", "pop")] = m_json_pop
+    eng.contract("iface:StreamReader.readline", self_type=Rd, params={"self": Rd}, returns=T.Opt(vc.Bytes), trusted=True,
+                 is_async=False, pure=True, raises={"OSError": {"cond": "True", "modifies": [], "exact": False}},
+                 note="asyncio.StreamReader.readline (a dropped connection surfaces as b'' or an OSError)")
+    eng.contract("iface:AioServer.close", self_type=AS, params={"self": AS}, trusted=True, modifies=["ghost:server_closed"],
+                 captures={"kind": Json},
+                 # C14: the server is closed only in answer to an explicit shutdown request
+                 requires=["JsonIs(kind, 'shutdown')"], ensures=["server_closed"])
+    eng.contract("iface:AioServer.wait_closed", self_type=AS, params={"self": AS}, trusted=True, pure=True)
+    eng.contract("gwf.backends.local:Server.send_response", self_type=Srv, trusted=True,
+                 params={"self": Srv, "writer": Wr, "kind": T.STR, "tid": None, "state": None, "tasks": None},
+                 defaults={"tid": V(T.NONE, T.NONE.value()), "state": V(T.NONE, T.NONE.value()),
+                           "tasks": V(T.NONE, T.NONE.value())},
+                 modifies=["ghost:sent_states"],
+                 ensures=["implies(kind == 'task_states', SentIs(tasks))"],
+                 raises={"OSError": {"cond": "True", "modifies": [], "exact": False}},
+                 note="encode(kind, **kwargs) written to the client socket: the table handed in is the table sent "
+                      "(json encoding of LocalStatus by name: CustomEncoder, trusted)")
+
+    def sent_is(e, st, tasks):
+        if tasks.ty == STS:
+            return V(T.BOOL, e.dict_eq(st.ghost["sent_states"], tasks))
+        return V(T.BOOL, z3.BoolVal(True))
+
+    eng.fn("SentIs")(sent_is)
+    EXC14 = {"cond": "True", "ensures": []}
+    eng.contract(
+        "gwf.backends.local:Server.handle_connection", self_type=Srv, is_async=True,
+        params={"self": Srv, "reader": Rd, "writer": Wr},
+        locals={"message": Json, "kind": Json},
+        requires=[s_.replace("self.", "self.scheduler.") for s_ in SINV] + ["not server_closed"],
+        modifies=["Scheduler.task_states", "Scheduler.tasks", "ghost:done_tasks", "ghost:issued", "ghost:cancel_requested",
+                  "ghost:server_closed", "ghost:sent_states", "ghost:last_kind"],
+        ensures=[],
+        # C14: whatever a client sends, the handler never stops the server except on an explicit shutdown request
+        # and touches the pool only through enqueue_task / cancel_task (their contracts)
+        raises={"json.JSONDecodeError": EXC14, "AttributeError": EXC14, "KeyError": EXC14, "AssertionError": EXC14,
+                "OSError": EXC14, "CancelledError": EXC14},
+        loops={1: Loop(inv=[s_.replace("self.", "self.scheduler.") for s_ in SINV] + ["not server_closed"])},
+        serves=["C14"])
+    eng.async_ghost.append("issued")
